@@ -15,6 +15,15 @@
 //                             kind e: gmtls verifyHandshakeSignature(signatureECDSA, *ecdsa.PublicKey on the SM2 curve, ...)   (hook)
 //                             kind x: x509 (*Certificate).CheckSignature(SM2WithSM3, msg, sig), key *ecdsa.PublicKey on the SM2 curve
 //                             -> ok 1 | ok 0   (1 = no error)
+//   Y id mode d0 d1 steps    HISTORY on reused buffers: one uid buffer and one msg buffer live for the whole history; before every
+//                             step the step's uid / msg bytes are copied INTO these buffers (in place, same backing array) and the
+//                             call gets slices of them.  mode 0: one key object per d0 / d1 kept for the whole history;
+//                             mode 1: ONE key object whose D, X, Y big.Ints are Set() in place to the selected key before each step.
+//                             steps = comma separated  kind.key.uid.msg.extra  (hex, "-" empty/nil; key = 0 | 1):
+//                               s.key.uid.msg.rho   Sm2Sign(key, msgbuf, uidbuf, reader(rho))        -> r.s | err
+//                               v.key.uid.msg.k     Sm2Verify(pub(key), msgbuf, uidbuf, r, s of step k) -> 1 | 0   (0 if step k gave no signature)
+//                               d.key.uid.msg.-     pub(key).Sm3Digest(msgbuf, uidbuf)               -> hex | err
+//                             -> ok <o_0>,<o_1>,...   (one entry per step)
 //   C id d g m streams msgs   concurrent leg: g goroutines released together, goroutine j signs its m messages
 //                             msgs[j*m .. j*m+m-1] one after the other with sm2.Sm2Sign(key(d), msg, nil, rd_j), rd_j its
 //                             OWN deterministic reader over streams[j] whose Read yields the processor (Gosched + a few
@@ -139,6 +148,80 @@ func (r *yieldReader) Read(p []byte) (int, error) {
 	return n, nil
 }
 
+// runHistory: a sequence of calls on buffers that are reused and overwritten in place between the calls
+func runHistory(mode string, d0, d1 *big.Int, steps string) string {
+	ds := []*big.Int{d0, d1}
+	keys := []*sm2.PrivateKey{key(d0), key(d1)}
+	shared := key(new(big.Int).Set(d0)) // mode 1: the one object every step uses, mutated in place (own big.Ints)
+	var uidBuf, msgBuf []byte
+	into := func(buf *[]byte, v []byte) []byte {
+		if v == nil {
+			return nil
+		}
+		if cap(*buf) < len(v) {
+			*buf = make([]byte, len(v), 2*len(v)+16)
+		}
+		*buf = (*buf)[:len(v)]
+		copy(*buf, v)
+		return *buf
+	}
+	type rs struct{ r, s *big.Int }
+	var sigs []*rs
+	var out []string
+	for _, st := range strings.Split(steps, ",") {
+		p := strings.Split(st, ".")
+		if len(p) != 5 {
+			return "BADCASE"
+		}
+		ki, _ := strconv.Atoi(p[1])
+		k := keys[ki]
+		if mode == "1" {
+			src := key(ds[ki])
+			shared.D.Set(src.D)
+			shared.X.Set(src.X)
+			shared.Y.Set(src.Y)
+			k = shared
+		}
+		uid := into(&uidBuf, unUid(p[2]))
+		var msg []byte
+		if p[3] != "-" {
+			msg = into(&msgBuf, hx.UnHex(p[3]))
+		}
+		var o string
+		var sig *rs
+		switch p[0] {
+		case "s":
+			r, s, err := sm2.Sm2Sign(k, msg, uid, &reader{rem: hx.UnHex(p[4])})
+			if err != nil {
+				o = "err"
+			} else {
+				o, sig = zs(r)+"."+zs(s), &rs{r, s}
+			}
+		case "v":
+			j, _ := strconv.Atoi(p[4])
+			if j < 0 || j >= len(sigs) || sigs[j] == nil {
+				o = "0"
+			} else if sm2.Sm2Verify(&k.PublicKey, msg, uid, sigs[j].r, sigs[j].s) {
+				o = "1"
+			} else {
+				o = "0"
+			}
+		case "d":
+			dg, err := k.PublicKey.Sm3Digest(msg, uid)
+			if err != nil {
+				o = "err"
+			} else {
+				o = hx.Hex(dg)
+			}
+		default:
+			return "BADCASE"
+		}
+		sigs = append(sigs, sig)
+		out = append(out, o)
+	}
+	return "ok " + strings.Join(out, ",")
+}
+
 // runConcurrent: g goroutines, each with its own key object, reader, messages and result slot
 func runConcurrent(d *big.Int, g, m int, streams, msgs [][]byte) string {
 	if len(streams) != g || len(msgs) != g*m {
@@ -223,6 +306,8 @@ func runCase(line string) string {
 				return "err"
 			}
 			return "ok " + hx.Hex(dg)
+		case "Y":
+			return runHistory(f[2], unz(f[3]), unz(f[4]), f[5])
 		case "W":
 			X, Y, msg, sig := unz(f[3]), unz(f[4]), hx.UnHex(f[5]), hx.UnHex(f[6])
 			switch f[2] {
@@ -737,6 +822,67 @@ func (g *genT) catalogueP(b baseT, all bool) {
 
 // ---------------------------------------------------------------------------------------------
 
+func hs(b []byte) string {
+	if len(b) == 0 {
+		return "-"
+	}
+	return hx.Hex(b)
+}
+
+func (g *genT) histories(thorough bool) {
+	n1 := new(big.Int).Sub(nOrd, big.NewInt(1))
+	emit := func(mode int, d0, d1 *big.Int, steps []string, what string) {
+		g.emit(fmt.Sprintf("Y %d %d %s %s %s", g.next(), mode, zs(d0), zs(d1), strings.Join(steps, ",")), "any", "history: "+what)
+	}
+	S := func(k int, uid, msg []byte) string {
+		return fmt.Sprintf("s.%d.%s.%s.%s", k, hs(uid), hs(msg), hx.Hex(g.r.Bytes(40)))
+	}
+	V := func(k int, uid, msg []byte, ref int) string { return fmt.Sprintf("v.%d.%s.%s.%d", k, hs(uid), hs(msg), ref) }
+	Dg := func(k int, uid, msg []byte) string { return fmt.Sprintf("d.%d.%s.%s.-", k, hs(uid), hs(msg)) }
+	mut := func(b []byte) []byte { // same length, one byte changed
+		c := append([]byte{}, b...)
+		c[g.r.Intn(len(c))] ^= byte(1 + g.r.Intn(255))
+		return c
+	}
+	rounds := 2
+	if thorough {
+		rounds = 12
+	}
+	for rep := 0; rep < rounds; rep++ {
+		d0, d1 := g.randBelow(n1, 40), g.randBelow(n1, 40)
+		L := g.r.Pick([]int{1, 5, 16, 16, 33, 200})
+		id1 := g.r.Bytes(L)
+		id2, id3 := mut(id1), g.r.Bytes(L)
+		m1 := g.r.Bytes(1 + g.r.Intn(60))
+		m2 := mut(m1)
+		for mode := 0; mode <= 1; mode++ {
+			emit(mode, d0, d1, []string{S(0, id1, m1), S(0, id2, m1), S(0, id1, m1), S(0, id3, m2)}, "sign under id1, then id2 written into the same buffer, back, id3")
+			emit(mode, d0, d1, []string{S(0, id1, m1), V(0, id1, m1, 0), V(0, id2, m1, 0), V(0, id1, m2, 0), V(0, id1, m1, 0)}, "verify after the ID / message buffer was overwritten in place")
+			emit(mode, d0, d1, []string{Dg(0, id1, m1), Dg(0, id2, m1), Dg(0, id2, m2), Dg(0, id1, m1)}, "digests on an overwritten ID buffer")
+			emit(mode, d0, d1, []string{S(0, id1, m1), V(1, id1, m1, 0), V(0, id1, m1, 0), V(0, id2, m1, 0), V(1, id2, m1, 0), V(0, id1, m1, 0)}, "evict and return: key0/id1, key1, key0 again, buffer overwritten")
+			emit(mode, d0, d1, []string{S(0, id1, m1), S(1, id1, m1), V(0, id1, m1, 1), V(1, id1, m1, 1), V(1, id1, m1, 0), V(0, id1, m1, 0)}, "two keys, same ID buffer, signatures crossed")
+			emit(mode, d0, d1, []string{S(0, nil, m1), V(0, defUID, m1, 0), V(0, mut(defUID), m1, 0), V(0, nil, m1, 0), S(0, defUID, m2), V(0, nil, m2, 4)}, "nil and default ID through the same buffer")
+			// seeded random history
+			var steps []string
+			nsig := 0
+			ids, ms := [][]byte{id1, id2, id3}, [][]byte{m1, m2}
+			for i := 0; i < 8+g.r.Intn(5); i++ {
+				k, id, m := g.r.Intn(2), ids[g.r.Intn(3)], ms[g.r.Intn(2)]
+				switch c := g.r.Intn(5); {
+				case c <= 1 || nsig == 0:
+					steps = append(steps, S(k, id, m))
+					nsig++
+				case c <= 3:
+					steps = append(steps, V(k, id, m, g.r.Intn(len(steps))))
+				default:
+					steps = append(steps, Dg(k, id, m))
+				}
+			}
+			emit(mode, d0, d1, steps, "random history on three IDs / two messages of equal length")
+		}
+	}
+}
+
 func gen(seed uint64, tier string, o *hx.Out) {
 	g := &genT{r: hx.NewRng(seed), o: o, tier: tier}
 	g.rotW = int(seed % 3)
@@ -937,6 +1083,9 @@ func gen(seed uint64, tier string, o *hx.Out) {
 			g.P(k.X, k.Y, msg, strictDER(r, s), "rej", b.descr+" strict DER of a signature under another uid")
 		}
 	}
+
+	// ---- histories: Sign / Verify / Sm3Digest sequences on reused, overwritten buffers ----
+	g.histories(thorough)
 
 	// ---- concurrent leg: several signers at once, each on its own stream ----
 	nConc := 2
